@@ -1,7 +1,7 @@
 """C13 — Copeland ranks by pairwise victories and reports consistent features."""
 from fractions import Fraction
 from hypothesis import strategies as st
-from vlib import gen, lib, oracle
+from vlib import gen, lib, oracle, mutate
 from vlib.harness import HypSub
 from vlib.lib import Violation
 from checks.common_alg import well_formed
@@ -21,13 +21,40 @@ META = {
 }
 
 
+
+@st.composite
+def preludes(draw):
+    """what the long-lived algorithm instance of a case did BEFORE the case's own dataset: nothing, or a run on another
+    small dataset (tie-free and complete half of the time), under some scheme"""
+    if draw(st.integers(0, 2)) == 0:
+        return None
+    shape = draw(st.sampled_from(["complete", "complete", "incomplete", "near_unanimous", "identical"]))
+    ds = draw(gen.datasets(max_n=5, max_m=3, shapes=[shape], kinds=("dense", "str"), allow_empty_rankings=False))
+    if draw(st.booleans()):
+        ds["rankings"] = [[[e] for b in r for e in b] for r in ds["rankings"]]          # break every tie
+    return {"rankings": ds["rankings"], "scheme": draw(gen.preset_multiples(["unifying", "induced", "unifying_half"]))}
+
+
+def run_prelude(algs, prelude):
+    if not prelude:
+        return
+    d0, s0 = lib.mk_dataset(prelude["rankings"]), lib.mk_scheme(prelude["scheme"])
+    for a in algs:
+        try:
+            with lib.quiet():
+                a.compute_consensus_rankings(d0, s0, True)
+        except Exception:  # noqa  (a refusal of the prelude is not the subject)
+            pass
+
+
 @st.composite
 def cases(draw, tier):
     big = tier == "thorough"
     # generation dominates the cost: every dataset is examined under three drawn schemes and the four presets
-    return {"schemes": [draw(gen.dyadic_schemes()) for _ in range(3)],
-            "dataset": draw(gen.datasets(max_n=15 if big else 8, max_m=7 if big else 6)),
-            "flag": draw(st.booleans())}
+    ds = draw(gen.datasets(max_n=15 if big else 8, max_m=7 if big else 6))
+    return {"schemes": [draw(gen.dyadic_schemes()) for _ in range(3)], "dataset": ds,
+            "flag": draw(st.booleans()), "prelude": draw(preludes()),
+            "via_mutation": draw(mutate.via_strategy(ds["rankings"], p=4))}
 
 
 PRESET_SCHEMES = [gen.PRESETS[k] for k in ("unifying", "pseudodistance", "induced", "extended")]
@@ -37,7 +64,11 @@ def check(case, ctx):
     if "scheme" in case:
         return check_one(case, ctx)
     # ONE CopelandMethod instance and ONE Dataset object serve the whole batch (state kept between runs must not leak)
-    shared = {"alg": CopelandMethod(), "d": lib.mk_dataset(case["dataset"]["rankings"])}
+    alg = CopelandMethod()
+    run_prelude([alg], case.get("prelude"))
+    first = lib.mk_scheme((case["schemes"] + PRESET_SCHEMES)[0])
+    shared = {"alg": alg, "d": mutate.build(case["dataset"]["rankings"], case.get("via_mutation"),
+                                            lambda d0: alg.compute_consensus_rankings(d0, first, case["flag"]))}
     for scheme in case["schemes"] + PRESET_SCHEMES:
         check_one({"scheme": scheme, "dataset": case["dataset"], "flag": case["flag"]}, ctx, shared)
 
